@@ -221,6 +221,73 @@ func runC19(c *Ctx) {
 			}
 		}
 	})
+	// a dispatch table: rows of {name constant, function}; Wrap visits every row, compares the row's name with the
+	// tag and returns what the SAME row's function makes of the table it was given
+	dispTables := c.dispatchTablesOf("auto")
+	for _, dt := range dispTables {
+		var cmpIdx, tagV ssa.Value
+		var cmpAt *ssa.BinOp
+		eachInstr(wrap, func(in ssa.Instruction) {
+			b, ok := in.(*ssa.BinOp)
+			if !ok || b.Op != token.EQL {
+				return
+			}
+			if idx, isT := tableElemFieldLoad(b.X, dt.G, dt.NameField); isT {
+				cmpIdx, tagV, cmpAt = idx, b.Y, b
+			} else if idx, isT := tableElemFieldLoad(b.Y, dt.G, dt.NameField); isT {
+				cmpIdx, tagV, cmpAt = idx, b.X, b
+			}
+		})
+		if cmpAt == nil {
+			continue
+		}
+		tags = append(tags, tagV)
+		// the loop over the table is complete, and the matching row's own function is what is called and returned
+		var tableLen ssa.Value = dt.G
+		if ia := indexAddrOfLoad(cmpAt, dt.G); ia != nil {
+			tableLen = ia.X
+		}
+		full := isFullRangeIndex(c, wrap, cmpIdx, tableLen)
+		sameRow, returned := false, false
+		eachInstr(wrap, func(in ssa.Instruction) {
+			call, ok := in.(*ssa.Call)
+			if !ok || call.Call.IsInvoke() || call.Call.StaticCallee() != nil {
+				return
+			}
+			idx, isT := tableElemFieldLoad(call.Call.Value, dt.G, dt.FnField)
+			if !isT {
+				return
+			}
+			if idx == cmpIdx && len(call.Call.Args) >= 1 && call.Call.Args[0] == ssa.Value(wrap.Params[0]) {
+				for _, cf := range expandConds(dominatingConds(call.Block())) {
+					if cf.Cond == ssa.Value(cmpAt) && cf.Val {
+						sameRow = true
+					}
+				}
+			}
+			for _, ret := range returnsOf(wrap) {
+				if ret.Block() == call.Block() && unwrap(results(ret)[0], true) == ssa.Value(call) {
+					returned = true
+				}
+			}
+		})
+		for k, nm := range dt.Names {
+			f := dt.Fns[k]
+			if len(f.Params) == 0 {
+				continue
+			}
+			pk, okp, why := wrapsPkg(f, nil, f.Params[0])
+			switch {
+			case !full:
+				okp, why = false, "the loop over the dispatch table does not visit every row"
+			case !sameRow:
+				okp, why = false, "the function called is not the one of the row whose name matched, applied to the table given"
+			case !returned:
+				okp, why = false, "what the row's function returns is not what Wrap returns"
+			}
+			pairs[nm] = pair{pk, cmpAt.Pos(), okp, why}
+		}
+	}
 	if len(pairs) == 0 {
 		r.Note("shape-unrecognised R19.2: auto.Wrap dispatches neither by a switch on constants nor through a map with constant keys; the dispatch rules are not evaluated")
 	} else {
@@ -307,6 +374,17 @@ func runC19(c *Ctx) {
 		r.Check("R19.3", FuncName(wrap), fmt.Sprintf("decoration #%d is set on texttable.Wrap(t)", nset), call.Pos(), ev.recvOK, "")
 		for _, v := range phiClosure(ev.name) {
 			k, rest, lowered, okS := sectionExpr(v, style, 0)
+			// the sections may be cut out by a helper of the package: splitStyle(style) (first, second string, haveSecond bool)
+			viaHelper, flagIdx := (*ssa.Call)(nil), -1
+			if ex, isEx := v.(*ssa.Extract); isEx && !okS {
+				if hc, isCall := ex.Tuple.(*ssa.Call); isCall {
+					if h := hc.Call.StaticCallee(); h != nil && h.Blocks != nil && funcPkgPath(h) == pkgPath("auto") && len(hc.Call.Args) == 1 && hc.Call.Args[0] == style {
+						if k2, rest2, low2, fl, ok2 := splitterResult(c.Idx(), h, ex.Index); ok2 {
+							k, rest, lowered, okS, viaHelper, flagIdx = k2, rest2, low2, true, hc, fl
+						}
+					}
+				}
+			}
 			switch {
 			case !okS:
 				r.Check("R19.3", FuncName(wrap), fmt.Sprintf("decoration name #%d is a section of the style", nset), call.Pos(), false, "the name is "+v.String())
@@ -335,6 +413,24 @@ func runC19(c *Ctx) {
 					}
 				}
 				exists = sectionExists(p, v, style, blk)
+				if viaHelper != nil {
+					// the helper vouches for the section on the returns where its flag is true (or on all of them)
+					exists = flagIdx < 0
+					for _, cf := range expandConds(dominatingConds(call.Block())) {
+						if fx, isF := cf.Cond.(*ssa.Extract); isF && fx.Tuple == ssa.Value(viaHelper) && fx.Index == flagIdx && cf.Val {
+							exists = true
+						}
+					}
+					for _, cf := range expandConds(dominatingConds(call.Block())) {
+						if b, isB := cf.Cond.(*ssa.BinOp); isB && (b.Op == token.EQL && cf.Val || b.Op == token.NEQ && !cf.Val) {
+							for _, side := range []ssa.Value{b.X, b.Y} {
+								if s1, isS := constString(side); isS && s1 == "texttable" {
+									underTT = true
+								}
+							}
+						}
+					}
+				}
 				r.Check("R19.3", FuncName(wrap), fmt.Sprintf("decoration name #%d: section 1 is used only for 'texttable.NAME' and only when it exists", nset), call.Pos(), underTT && exists,
 					fmt.Sprintf("under the texttable key: %v; second section known to exist: %v", underTT, exists))
 			default:
@@ -373,6 +469,33 @@ func runC19(c *Ctx) {
 			if len(call.Call.Args) == 2 {
 				if g := globalRoot(call.Call.Args[1]); g != nil {
 					added = append(added, globalStringElems(c, g)...)
+				}
+				// append(x, <a local slice holding the name of every row of the dispatch table>...)
+				if ms, isMS := unwrap(call.Call.Args[1], true).(*ssa.MakeSlice); isMS {
+					for _, dt := range dispTables {
+						if rec, complete := namesOfTableCopied(c, list, ms, dt); rec {
+							r.Check("R19.1", FuncName(list), "the names added are those of every row of the dispatch table", in.Pos(), complete, "the copy of the table's names skips rows or is not as long as the table: a constructible style is not listed, or an empty name is")
+							if complete {
+								added = append(added, dt.Names...)
+							}
+						}
+					}
+				}
+			}
+			// append(x, table[i].name) in a loop over the whole dispatch table
+			if _, elems, ok := appendedElems(call); ok && len(elems) == 1 {
+				for _, dt := range dispTables {
+					if idx, isT := tableElemFieldLoad(elems[0], dt.G, dt.NameField); isT {
+						var tl ssa.Value = dt.G
+						if ia := indexAddrOfLoad(elems[0], dt.G); ia != nil {
+							tl = ia.X
+						}
+						complete := isFullRangeIndex(c, list, idx, tl) && !condInsideLoop(in.Block())
+						r.Check("R19.1", FuncName(list), "the names added are those of every row of the dispatch table", in.Pos(), complete, "the loop over the table skips rows: a constructible style is not listed")
+						if complete {
+							added = append(added, dt.Names...)
+						}
+					}
 				}
 			}
 		})
@@ -596,6 +719,18 @@ func sectionExpr(v ssa.Value, style ssa.Value, depth int) (int, bool, bool, bool
 		}
 	case *ssa.Extract:
 		call, ok := x.Tuple.(*ssa.Call)
+		if ok && gCtx != nil {
+			// a helper of the package that cuts the style into sections (unconditionally for this result)
+			if h := call.Call.StaticCallee(); h != nil && h.Blocks != nil && funcPkgPath(h) == pkgPath("auto") && len(call.Call.Args) == 1 {
+				k0, rest0, low0, okS := sectionExpr(call.Call.Args[0], style, depth+1)
+				if okS && k0 == 0 && rest0 && !low0 {
+					if k, rest, low, flagIdx, okH := splitterResult(gCtx.Idx(), h, x.Index); okH && flagIdx < 0 {
+						return k, rest, low, true
+					}
+				}
+				return 0, false, false, false
+			}
+		}
 		if !ok || !isFunc(call.Call.StaticCallee(), "strings", "Cut") {
 			return 0, false, false, false
 		}
@@ -1076,4 +1211,171 @@ func renderViaBuffer(fn *ssa.Function) (bool, string) {
 		}
 	}
 	return true, ""
+}
+
+// splitterResult: result #idx of h(style) is section k of its parameter on every return where it is meant to be
+// used. Returns where it is something else (the zero value of a named result, say) must all hand back false in one
+// boolean result - flagIdx - which the caller then has to test. flagIdx < 0: the result is the section on every return.
+func splitterResult(ix *idxEngine, h *ssa.Function, idx int) (k int, rest, lowered bool, flagIdx int, ok bool) {
+	flagIdx = -1
+	if len(h.Params) != 1 || !isStringType(h.Params[0].Type()) || idx >= h.Signature.Results().Len() {
+		return
+	}
+	style := ssa.Value(h.Params[0])
+	p := ix.proverFor(h)
+	nres := h.Signature.Results().Len()
+	type oneCase struct {
+		v     ssa.Value
+		flags map[int]bool // boolean results known constant in this case
+		blk   *ssa.BasicBlock
+	}
+	var cases []oneCase
+	for _, ret := range returnsOf(h) {
+		rv := results(ret)
+		if len(rv) != nres {
+			return
+		}
+		phi, isPhi := rv[idx].(*ssa.Phi)
+		if !isPhi {
+			c := oneCase{v: rv[idx], flags: map[int]bool{}, blk: ret.Block()}
+			for j := 0; j < nres; j++ {
+				if b, isB := constBool(rv[j]); isB {
+					c.flags[j] = b
+				}
+			}
+			cases = append(cases, c)
+			continue
+		}
+		for e := range phi.Edges {
+			c := oneCase{v: phi.Edges[e], flags: map[int]bool{}, blk: phi.Block().Preds[e]}
+			for j := 0; j < nres; j++ {
+				if b, isB := constBool(rv[j]); isB {
+					c.flags[j] = b
+				} else if fp, isFP := rv[j].(*ssa.Phi); isFP && fp.Block() == phi.Block() {
+					if b, isB := constBool(fp.Edges[e]); isB {
+						c.flags[j] = b
+					}
+				}
+			}
+			cases = append(cases, c)
+		}
+	}
+	first := true
+	var void []oneCase
+	for _, c := range cases {
+		k2, rest2, low2, okS := sectionExpr(c.v, style, 0)
+		if okS && k2 >= 1 && !rest2 {
+			blk := c.blk
+			if vi, isI := c.v.(ssa.Instruction); isI {
+				blk = vi.Block()
+			}
+			okS = sectionExists(p, c.v, style, blk)
+		}
+		if !okS {
+			void = append(void, c)
+			continue
+		}
+		if !first && (k2 != k || rest2 != rest || low2 != lowered) {
+			return 0, false, false, -1, false
+		}
+		k, rest, lowered, first = k2, rest2, low2, false
+	}
+	if first {
+		return 0, false, false, -1, false
+	}
+	if len(void) == 0 {
+		return k, rest, lowered, -1, true
+	}
+	for j := 0; j < nres; j++ {
+		if !isBoolType(h.Signature.Results().At(j).Type()) {
+			continue
+		}
+		good := true
+		for _, c := range void {
+			if b, has := c.flags[j]; !has || b {
+				good = false
+			}
+		}
+		if good {
+			return k, rest, lowered, j, true
+		}
+	}
+	return 0, false, false, -1, false
+}
+
+func isBoolType(t types.Type) bool {
+	b, ok := t.Underlying().(*types.Basic)
+	return ok && b.Info()&types.IsBoolean != 0
+}
+
+// indexAddrOfLoad: the IndexAddr on table g underneath a (compared or called) element field load.
+func indexAddrOfLoad(v ssa.Value, g *ssa.Global) *ssa.IndexAddr {
+	var found *ssa.IndexAddr
+	var walk func(x ssa.Value, d int)
+	walk = func(x ssa.Value, d int) {
+		if d > 6 || found != nil || x == nil {
+			return
+		}
+		switch y := x.(type) {
+		case *ssa.BinOp:
+			walk(y.X, d+1)
+			walk(y.Y, d+1)
+		case *ssa.UnOp:
+			walk(y.X, d+1)
+		case *ssa.Field:
+			walk(y.X, d+1)
+		case *ssa.FieldAddr:
+			walk(y.X, d+1)
+		case *ssa.IndexAddr:
+			if y.X == ssa.Value(g) {
+				found = y
+				return
+			}
+			if ld, ok := y.X.(*ssa.UnOp); ok && ld.X == ssa.Value(g) {
+				found = y
+			}
+		}
+	}
+	walk(v, 0)
+	return found
+}
+
+// namesOfTableCopied: ms is make([]string, len(table)) and is filled, in a loop over the whole table, with
+// ms[i] = table[i].name (nothing else is stored into it).
+func namesOfTableCopied(c *Ctx, fn *ssa.Function, ms *ssa.MakeSlice, dt dispatchTable) (recognised, complete bool) {
+	p := c.Idx().proverFor(fn)
+	var st *ssa.Store
+	n := 0
+	for _, r := range referrersOf(ms) {
+		if ia, ok := r.(*ssa.IndexAddr); ok {
+			for _, rr := range referrersOf(ia) {
+				if s, isSt := rr.(*ssa.Store); isSt && s.Addr == ssa.Value(ia) {
+					st = s
+					n++
+				}
+			}
+		}
+	}
+	if n != 1 {
+		return false, false
+	}
+	ia := st.Addr.(*ssa.IndexAddr)
+	idx, isT := tableElemFieldLoad(st.Val, dt.G, dt.NameField)
+	if !isT {
+		return false, false
+	}
+	if p.resolve(idx) != p.resolve(ia.Index) {
+		return true, false
+	}
+	var tl ssa.Value = dt.G
+	if tia := indexAddrOfLoad(st.Val, dt.G); tia != nil {
+		tl = tia.X
+	}
+	if !isFullRangeIndex(c, fn, idx, tl) || condInsideLoop(st.Block()) {
+		return true, false
+	}
+	// the slice is exactly as long as the table
+	a, _ := p.prove(leq(p.lenOf(ms), p.lenOf(tl), "copy of the table's names"), st, nil, 0)
+	b, _ := p.prove(leq(p.lenOf(tl), p.lenOf(ms), "copy of the table's names"), st, nil, 0)
+	return true, a && b
 }
